@@ -11,7 +11,8 @@ ID = "C10"
 RULE = ("Two generated configurations A and B per case (bar-shaped episodes over ETF / user spot / user margined / ES, or a FutureChain (ES, NK, "
         "ZN, VX) around a roll date, with a recording state that carries history (running sums, counters), fees, latency, delay, folds/episode "
         "length with a numpy seed from the case, optionally 'all defaults' for state/reward/fees), action sequences, a PREFIX for A (k steps of "
-        "other actions then abandon / a complete episode / an episode ended by an invalid-action error) and an interleaving SCHEDULE (0/1 list). "
+        "other actions then abandon / a complete episode / an episode ended by an invalid-action error / an episode started with a one-off "
+        "reset(episode_length=k)) and an interleaving SCHEDULE (0/1 list). "
         "Oracle: bitwise trace equality (observations, rewards, done, executed trades with prices and fees, holdings, NLV, clock, recorder log): "
         "(1) fresh A alone = T_A; (2) A after the prefix, reset, same actions = T_A; (3) a second fresh build = T_A; (4) A and B stepped "
         "alternately per schedule produce T_A and T_B. All environments of a case are built before any is stepped. Non-trivial = non-empty prefix "
@@ -42,7 +43,7 @@ def cases(draw, tier="quick"):
     b = draw(configs(tier))
     na = len(a["contracts"])
     k = draw(st.integers(0, len(a["actions"])))
-    prefix_kind = draw(st.sampled_from(["abandon", "abandon", "complete", "error", "none"]))
+    prefix_kind = draw(st.sampled_from(["abandon", "abandon", "complete", "error", "none", "short-episode"]))
     prefix_actions = [[draw(st.sampled_from([0.0, 0.3, -0.4, 0.7])) for _ in range(na)] for _ in range(k)]
     schedule = draw(st.lists(st.integers(0, 1), min_size=2, max_size=30))
     return {"a": a, "b": b, "prefix": {"kind": prefix_kind, "actions": prefix_actions},
@@ -122,7 +123,18 @@ def run(case):
     pk = case["prefix"]["kind"]
     env = A1.env
     fold = E.fold_name(a)
-    if pk != "none":
+    if pk == "short-episode":
+        # a previous episode started with a one-off length, abandoned or completed
+        np.random.seed(case["seed_a"] + 1)
+        try:
+            env.reset(fold, episode_length=2 + len(case["prefix"]["actions"]) % 3)
+            for act in case["prefix"]["actions"]:
+                if env._done:
+                    break
+                env.step(E.to_action(act))
+        except Exception:  # noqa  (a length that does not fit is refused: fine, nothing started)
+            pass
+    elif pk != "none":
         np.random.seed(case["seed_a"] + 1)
         env.reset(fold)
         if pk == "complete":
@@ -165,7 +177,7 @@ def run(case):
         res.fail("environment B stepped in alternation with A differs from B alone: " + d)
     chain = any(s["kind"] == "chain" for s in a["contracts"]) or any(s["kind"] == "chain" for s in b["contracts"])
     stateful = not a.get("use_defaults")
-    prefix_nonempty = pk != "none" and (pk == "complete" or len(case["prefix"]["actions"]) > 0)
+    prefix_nonempty = pk != "none" and (pk in ("complete", "short-episode") or len(case["prefix"]["actions"]) > 0)
     res.nontrivial = prefix_nonempty and alternations >= 2 and (chain or stateful) and len(ta) > 2
     res.tag("prefix-" + pk)
     if chain:
